@@ -589,7 +589,7 @@ pub fn run(p: &Params) -> (Stats, &'static str) {
     sim::install_observer();
     let mut st = Stats::new();
     let base = p.shard_seed("C13");
-    let n = p.share(if p.tier_thorough { 800_000 } else { 16_000 });
+    let n = p.share(if p.tier_thorough { 6_400_000 } else { 16_000 });
     for i in 0..n {
         one(&mut st, mix(base, i));
         if st.too_many_violations() {
